@@ -12,6 +12,10 @@ enum Call<E> {
 }
 impl<E> Call<E> {
     spec fn inputs(self) -> Seq<InS> { match self { Call::Read { inputs, answer } => inputs, Call::Write { inputs, answer } => inputs } }
+    /// the outputs an output-reading call answered with
+    spec fn read_ok(self) -> Option<Seq<OutS>> {
+        match self { Call::Read { inputs, answer } => match answer { Ok(o) => Some(o), Err(_) => None }, _ => None }
+    }
     spec fn err(self) -> Option<E> {
         match self {
             Call::Read { inputs, answer } => match answer { Ok(_) => None, Err(e) => Some(e) },
@@ -120,4 +124,50 @@ fn verif_zip_try_map<A, B, R, X, F: FnMut((&A, &B)) -> Result<R, X>>(a: &[A], b:
         },
 {
     unimplemented!()
+}
+
+impl TestCase {
+    spec fn cols(&self) -> Cols { Cols { inp: self.input_indices@, exp: self.expected_indices@ } }
+    /// what binding establishes about an accepted test (C11), for rows of width w
+    spec fn wf_w(&self, w: int) -> bool {
+        &&& stmts_wf(self.stmts@)
+        &&& stmts_shape(self.stmts@, w, self.cols())
+        &&& wf_indices_of(self.signals@, self.input_indices@, self.expected_indices@, w)
+        &&& (forall|c: int| !(self.cols().col_is_input(c) && self.cols().col_is_expected(c)))
+        &&& (forall|j: int| 0 <= j < self.read_outputs@.len() ==> (#[trigger] self.read_outputs@[j]) < self.signals@.len())
+        &&& (forall|i: int| 0 <= i < self.signals@.len() ==> ((#[trigger] self.signals@[i]).typ matches SignalType::Virtual { expr } ==> expr_wf(*expr.expr)))
+    }
+    spec fn wf(&self) -> bool { exists|w: int| self.wf_w(w) }
+}
+
+impl<'a, 'b, T: TestDriver> DataRowIterator<'a, 'b, T> {
+    /// structure invariant of the iterator
+    #[verifier::prophetic]
+    spec fn it_inv(&self) -> bool {
+        &&& self.test_data.td_inv()
+        &&& self.ctx.wf()
+        // virtual signals see no variables (C14): the alternative variable map stays empty
+        &&& self.ctx.alt_vars.values@.len() == 0
+        &&& self.test_data.output_indices@.len() == self.test_data.expected_indices@.len()
+        &&& (forall|i: int| 0 <= i < self.test_data.output_indices@.len() ==> ((#[trigger] self.test_data.output_indices@[i]) matches OutputEntryIndex::Output(n) ==> n < self.test_data.num_outputs))
+        &&& (forall|i: int| 0 <= i < self.test_data.output_indices@.len() ==> ((#[trigger] self.test_data.output_indices@[i]) matches OutputEntryIndex::Virtual(e) ==> expr_wf(*e)))
+    }
+}
+
+/// the value the answer `outs` gives for the output called `name` (a later entry of the same name wins)
+spec fn last_out_named(outs: Seq<OutS>, name: Seq<char>) -> Option<OutputValue>
+    decreases outs.len()
+{
+    if outs.len() == 0 { None }
+    else if outs.last().signal.name@ == name { Some(outs.last().value) }
+    else { last_out_named(outs.drop_last(), name) }
+}
+proof fn lemma_last_out_named(v: Seq<OutputEntry>, name: Seq<char>)
+    ensures last_output_named(v, name) == last_out_named(outs_view(v), name)
+    decreases v.len()
+{
+    if v.len() > 0 {
+        assert(outs_view(v).drop_last() =~= outs_view(v.drop_last()));
+        lemma_last_out_named(v.drop_last(), name);
+    }
 }
